@@ -237,7 +237,9 @@ class Ctx:
                 n_closed += 1
             elif b.startswith("Axioms:"):
                 n_closed += 1
-                for m in re.finditer(r"(?m)^([A-Za-z_][A-Za-z0-9_.']*)\s*:", b[len("Axioms:"):]):
+                # a name starts at column 0; its type follows after " : " on the same line or, for long
+                # names, on the next (indented) line
+                for m in re.finditer(r"(?m)^([A-Za-z_][A-Za-z0-9_.']*)[ \t]*(?::|$)", b[len("Axioms:"):]):
                     axioms.add(m.group(1))
         self.axioms = sorted(axioms)
         n_print = len(re.findall(r"^\s*Print Assumptions", txt, flags=re.M))
